@@ -170,6 +170,16 @@ Section Sender.
   Definition synchronize (fuel : nat) (pods : list A) (ctrs : list B) (st : PS) : outcome :=
     sync_loop fuel pods ctrs (len pods) (len ctrs) st.
 
+  (* acceptPluginConnections: plugins register one after the other on one runtime (the plugin-sync lock
+     serialises them); each is synchronised by its own call of synchronize with the state the runtime
+     holds then.  synchronize starts from podsPerMsg = len(pods), ctrsPerMsg = len(containers) and neither
+     reads nor writes a field of the Adaptation: nothing is carried from one registration to the next. *)
+  Definition registration := (list A * list B * PS)%type.
+  Definition sync_one (fuel : list A -> list B -> nat) (r : registration) : outcome :=
+    let '(pods, ctrs, st) := r in synchronize (fuel pods ctrs) pods ctrs st.
+  Definition sync_all (fuel : list A -> list B -> nat) (regs : list registration) : list outcome :=
+    map (sync_one fuel) regs.
+
   (* iterations that always suffice (Proofs: C09_safety) *)
   Definition sync_fuel (pods : list A) (ctrs : list B) : nat :=
     S (2 * (length pods + length ctrs)).
@@ -192,7 +202,7 @@ End Sender.
 Arguments r_more {U}. Arguments r_update {U}. Arguments Build_reply {U}.
 Arguments Delivered {A B U PS}. Arguments Failed {A B U PS}. Arguments Panic {A B U PS}. Arguments OutOfFuel {A B U PS}.
 Arguments sent_of {A B U PS}. Arguments push {A B U PS}. Arguments sync_loop {A B U PS}. Arguments synchronize {A B U PS}.
-Arguments sync_fuel {A B}. Arguments outcome_ok {A B U PS}. Arguments peer_run {A B U PS}.
+Arguments sync_one {A B U PS}. Arguments sync_all {A B U PS}. Arguments sync_fuel {A B}. Arguments outcome_ok {A B U PS}. Arguments peer_run {A B U PS}.
 
 (* ------------------------------------------------------------------ *)
 (** * The transport as a function of object sizes
